@@ -5,11 +5,11 @@
 //!   `begin interp <spec> <gas> <static> <code> <input> <target> <caller> <value> <env>`      -> `ok len=<bytecode len> pc=0`
 //!       `<spec>` = `SpecId as u8` (decimal; the instruction table is the one `spec_to_generic!` selects),
 //!       `<env>` = `chainid,coinbase,timestamp,number,difficulty,prevrandao|-,gaslimit,basefee,gasprice,prio|-,origin,h1+h2..|-,blobgasprice|-,limit|-`
-//!   `i s <resp>`   one `Interpreter::step` (opcode fetch, pointer increment, table call), `<resp>` = the answer the host
+//!   `i s <tag> <resp>`   one `Interpreter::step` (opcode fetch, pointer increment, table call), `<resp>` = the answer the host
 //!       gives if it is asked during this instruction: `-` (= `None`) or `ok:word:bytes:cold:orig:pres:new:flags:deleg`
-//!   `i ret <result>:<gas remaining>:<refunded>:<output>:<address|->`   `insert_call_outcome` / `insert_create_outcome`
+//!   `i ret <tag> <result>:<gas remaining>:<refunded>:<output>:<address|->`   `insert_call_outcome` / `insert_create_outcome`
 //!       after the previous instruction returned `CallOrCreate`
-//!   `i dump`       full digests of stack / memory / return data
+//!   `i dump <tag>`  full digests of stack / memory / return data
 //!   reply of `s` / `ret`: `pc= r=<InstructionResult> g=<remaining> rf=<refunded> n=<stack len> top=<top 3 words> sd=<stack digest>
 //!       ms=<memory len> md=<memory digest> rd=<len>:<digest>` [` h=<host call with arguments>`] [` act=<call/create inputs>`] [` out=<len>:<digest>`]
 //!   `interp run <spec> .. <env> <hostq> <childq> <keccakq>`   `Interpreter::run` re-entered after every action until the frame returns
@@ -857,15 +857,15 @@ impl Exec {
                     "bad-op".into()
                 }
             },
-            ["i", "s", resp] => match (&mut self.sess, Resp::parse(resp)) {
+            ["i", "s", _tag, resp] => match (&mut self.sess, Resp::parse(resp)) {
                 (Some(s), Some(r)) if !s.dead && !s.pending_action() => s.step(r),
                 _ => "bad-op".into(),
             },
-            ["i", "ret", child] => match (&mut self.sess, Child::parse(child)) {
+            ["i", "ret", _tag, child] => match (&mut self.sess, Child::parse(child)) {
                 (Some(s), Some(c)) => s.ret(&c),
                 _ => "bad-op".into(),
             },
-            ["i", "dump"] => match &self.sess {
+            ["i", "dump", _tag] => match &self.sess {
                 Some(s) if !s.dead => s.dump(),
                 _ => "bad-op".into(),
             },
@@ -1397,6 +1397,7 @@ fn keccak_resp(s: &Session) -> Resp {
 
 /// one lockstep case: `begin`, then instructions until the frame ends / `max_steps`
 fn gen_case(r: &mut Rng, p: &Params, max_steps: usize, out: &mut Out, lines: &mut Vec<String>) {
+    let case_id = lines.len();
     let mut ex = Exec::new();
     let b = format!("begin interp {}", p.tokens());
     let rep = ex.line(&b);
@@ -1417,7 +1418,7 @@ fn gen_case(r: &mut Rng, p: &Params, max_steps: usize, out: &mut Out, lines: &mu
                 _ => 0,
             };
             let c = gen_child(r, gl);
-            let l = format!("i ret {}", c.token());
+            let l = format!("i ret {}.r{} {}", case_id, lines.len(), c.token());
             let rep = ex.line(&l);
             lines.push(l);
             out.count("line:ret");
@@ -1435,7 +1436,7 @@ fn gen_case(r: &mut Rng, p: &Params, max_steps: usize, out: &mut Out, lines: &mu
         }
         let op = sess.peek_opcode();
         let resp = if op == Some(0x20) { keccak_resp(sess) } else { gen_resp(r, op) };
-        let l = format!("i s {}", resp.token());
+        let l = format!("i s {}.{} {}", case_id, steps, resp.token());
         let rep = ex.line(&l);
         lines.push(l);
         steps += 1;
@@ -1453,7 +1454,7 @@ fn gen_case(r: &mut Rng, p: &Params, max_steps: usize, out: &mut Out, lines: &mu
         }
     }
     if ex.sess.as_ref().map(|s| !s.dead).unwrap_or(false) {
-        lines.push("i dump".to_string());
+        lines.push(format!("i dump {}", case_id));
     }
     out.count("case:step");
 }
